@@ -140,3 +140,275 @@ def build_T14(tree):
 
 
 TARGETS = {'T14': {'file': 'sr/value_types.py', 'build': build_T14}}
+
+
+# ======================================================================================================
+# T14p: the methods of ContentSequence, statement by statement, as programs of Model/SRSeqIR.lean
+# ======================================================================================================
+import re as _re
+
+from py2lean import lean_table
+
+
+def _is_guard(st):
+    """an `if` whose every branch ends in `raise` and that assigns nothing"""
+    if not isinstance(st, ast.If):
+        return False
+    has_raise = any(isinstance(x, ast.Raise) for x in ast.walk(st))
+    assigns = any(isinstance(x, (ast.Assign, ast.AugAssign, ast.AnnAssign, ast.Delete, ast.Return)) for x in ast.walk(st))
+    calls = [c for c in ast.walk(st) if isinstance(c, ast.Call) and not isinstance(c.func, ast.Name)]
+    calls = [c for c in calls if _norm(c.func) not in ('self.__class__.__name__',)]
+    return has_raise and not assigns and not calls
+
+
+def _lut_append(st, var):
+    return isinstance(st, ast.Expr) and _norm(st) == f'self._lut[{var}.name].append({var})'
+
+
+def _remove_loop(st):
+    """`for i in <old>: [i = cast(ContentItem, i);] index = self._lut[i.name].index(i); del self._lut[i.name][index]` -> old name"""
+    if not (isinstance(st, ast.For) and isinstance(st.target, ast.Name) and isinstance(st.iter, ast.Name) and not st.orelse):
+        return None
+    v = st.target.id
+    body = [_norm(s) for s in st.body]
+    if body and body[0] == f'{v}=cast(ContentItem,{v})':
+        body = body[1:]
+    m = _re.fullmatch(rf'(\w+)=self\._lut\[{v}\.name\]\.index\({v}\)', body[0]) if len(body) == 2 else None
+    if m and body[1] == f'delself._lut[{v}.name][{m.group(1)}]':
+        return st.iter.id
+    return None
+
+
+def _append_loop(st):
+    """`for i in <items>: self._lut[i.name].append(i)` -> items name"""
+    if isinstance(st, ast.For) and isinstance(st.target, ast.Name) and isinstance(st.iter, ast.Name) and not st.orelse \
+            and len(st.body) == 1 and _lut_append(st.body[0], st.target.id):
+        return st.iter.id
+    return None
+
+
+def _check_loop(st):
+    if isinstance(st, ast.For) and isinstance(st.target, ast.Name) and isinstance(st.iter, ast.Name) and not st.orelse \
+            and all(_is_guard(s) for s in st.body) and st.body:
+        return st.iter.id
+    return None
+
+
+def _bind_old(st):
+    """`if isinstance(idx, slice): X = self[idx]  else: X = [self[idx]]` -> X"""
+    if isinstance(st, ast.If) and _norm(st.test) == 'isinstance(idx,slice)' and len(st.body) == 1 and len(st.orelse) == 1:
+        a, b = _norm(st.body[0]), _norm(st.orelse[0])
+        m = _re.fullmatch(r'(\w+)=self\[idx\]', a)
+        if m and b == f'{m.group(1)}=[self[idx]]':
+            return m.group(1)
+    return None
+
+
+def _prog(fn_name, stmts):
+    return lean_table(fn_name, 'List HdVerif.SRSeqIR.MStmt', ['.' + s for s in stmts])
+
+
+def _mutator(tree, cls, meth, fn=None):
+    fn = fn or find_func(tree, f'{cls}.{meth}')
+    body = strip_doc(fn.body)
+    out = []
+    args_name = {'append': 'val', 'insert': 'val', 'extend': 'val', '__iadd__': 'val', '__setitem__': 'items', '__delitem__': None,
+                 '__init__': 'items'}[meth]
+    old_name = None
+    k = 0
+    while k < len(body):
+        st = body[k]
+        n = _norm(st)
+        # two leading guards of append / insert = one checkEach
+        if meth in ('append', 'insert') and _is_guard(st):
+            j = k
+            while j < len(body) and _is_guard(body[j]):
+                j += 1
+            if j - k != 2:
+                raise Unsupported(f'{meth}: {j - k} leading guards instead of 2')
+            out.append(f'checkEach .{meth}')
+            k = j
+            continue
+        if meth == '__init__':
+            if n in ('self._is_root=is_root', 'self._is_sr=is_sr'):
+                if not out or out[-1] != 'setFlags':
+                    out.append('setFlags')
+                k += 1
+                continue
+            if isinstance(st, ast.If) and _norm(st.test) in ('is_rootandnotis_sr', 'is_rootand(notis_sr)') and _is_guard(st):
+                out.append('flags')
+                k += 1
+                continue
+            if isinstance(st, ast.AnnAssign) and _norm(st.target) == 'self._lut' and _norm(st.value) == 'defaultdict(list)' or \
+                    n == 'self._lut=defaultdict(list)':
+                out.append('lutInit')
+                k += 1
+                continue
+            if isinstance(st, ast.If) and _norm(st.test) == 'itemsisnotNone':
+                inner = st.body
+                if st.orelse:
+                    if [_norm(s) for s in st.orelse] != ['super().__init__()']:
+                        raise Unsupported('__init__: else-branch is not super().__init__()')
+                    if not inner or _norm(inner[0]) != 'super().__init__(items)':
+                        raise Unsupported('__init__: items branch does not start with super().__init__(items)')
+                    out.append('listInit')
+                    inner = inner[1:]
+                for s in inner:
+                    if _append_loop(s) == 'items':
+                        out.append('lutAppendArgs')
+                    elif _check_loop(s) == 'items':
+                        out.append('checkEach .ctor')
+                    else:
+                        raise Unsupported('__init__: unrecognised statement ' + ast.unparse(s)[:80])
+                k += 1
+                continue
+            raise Unsupported('__init__: unrecognised statement ' + ast.unparse(st)[:80])
+        if n == f'self._lut[{args_name}.name].append({args_name})' and meth in ('append', 'insert'):
+            out.append('lutAppendArgs')
+        elif n == 'super().append(val)' and meth == 'append':
+            out.append('listAppend')
+        elif n == 'super().insert(position,val)' and meth == 'insert':
+            out.append('listInsert')
+        elif meth == 'extend' and isinstance(st, ast.For) and _norm(st.iter) == 'val' and isinstance(st.target, ast.Name) \
+                and [_norm(s) for s in st.body] == [f'self.append({st.target.id})'] and not st.orelse:
+            out.append('forEachArg .append')
+        elif meth == '__iadd__' and n == 'self.extend(val)':
+            out.append('call .extend')
+        elif meth == '__iadd__' and n == 'returnself' and k == len(body) - 1:
+            pass
+        elif meth == '__setitem__' and n == 'ifisinstance(idx,slice):val=list(val)items=valelse:items=[val]':
+            out.append('normArgs')
+        elif meth == '__setitem__' and _check_loop(st) == 'items':
+            out.append('checkEach .setitem')
+        elif meth in ('__setitem__', '__delitem__') and _bind_old(st):
+            if old_name is not None:
+                raise Unsupported(f'{meth}: old items bound twice')
+            old_name = _bind_old(st)
+            out.append('bindOld')
+        elif meth in ('__setitem__', '__delitem__') and _remove_loop(st) is not None:
+            if _remove_loop(st) != old_name:
+                raise Unsupported(f'{meth}: index entries removed for {_remove_loop(st)}, not for the bound old items')
+            out.append('lutRemoveOld')
+        elif meth == '__setitem__' and _append_loop(st) == 'items':
+            out.append('lutAppendArgs')
+        elif meth == '__setitem__' and n == 'super().__setitem__(idx,val)':
+            out.append('listAssign')
+        elif meth == '__delitem__' and n == 'super().__delitem__(idx)':
+            out.append('listDelete')
+        else:
+            raise Unsupported(f'{meth}: unrecognised statement ' + ast.unparse(st)[:80])
+        k += 1
+    return out, span_sha(body)
+
+
+def _flag_src(node, own):
+    n = _norm(node)
+    if n == own:
+        return 'own'
+    if n == 'True':
+        return 'constTrue'
+    if n == 'False':
+        return 'constFalse'
+    raise Unsupported('flag expression ' + n)
+
+
+def _collect(tree, cls, meth):
+    fn = find_func(tree, f'{cls}.{meth}')
+    body = strip_doc(fn.body)
+    src_txt = {'find': ('self._lut[name]', 'bucketOfName'),
+               'get_nodes': ("[itemforiteminselfifhasattr(item,'ContentSequence')]", 'nodesOfSelf')}[meth]
+
+    def flags_of(call, skip_pos=0):
+        kw = {k.arg: k.value for k in call.keywords}
+        if len(call.args) != skip_pos or set(kw) - {'is_root', 'is_sr'}:
+            raise Unsupported(f'{meth}: unexpected arguments of the result constructor')
+        root = _flag_src(kw['is_root'], 'self._is_root') if 'is_root' in kw else 'constFalse'     # defaults of __init__
+        sr = _flag_src(kw['is_sr'], 'self._is_sr') if 'is_sr' in kw else 'constTrue'
+        return root, sr
+    # shape A: x = ContentSequence(flags); x.extend(src); return cast(Self, x) | return x
+    if len(body) == 3 and isinstance(body[0], ast.Assign) and isinstance(body[0].value, ast.Call) \
+            and _norm(body[0].value.func) in ('ContentSequence', 'self.__class__') and isinstance(body[0].targets[0], ast.Name):
+        x = body[0].targets[0].id
+        root, sr = flags_of(body[0].value)
+        if _norm(body[1]) != f'{x}.extend({src_txt[0]})':
+            raise Unsupported(f'{meth}: second statement is not {x}.extend({src_txt[0]})')
+        if _norm(body[2]) not in (f'returncast(Self,{x})', f'return{x}'):
+            raise Unsupported(f'{meth}: does not return the new sequence')
+        via = 'extend'
+    # shape B: return ContentSequence(src, flags)
+    elif len(body) == 1 and isinstance(body[0], ast.Return) and isinstance(body[0].value, ast.Call) \
+            and _norm(body[0].value.func) in ('ContentSequence', 'self.__class__') and len(body[0].value.args) == 1 \
+            and _norm(body[0].value.args[0]) == src_txt[0]:
+        root, sr = flags_of(body[0].value, 1)
+        via = 'constructor'
+    else:
+        raise Unsupported(f'{meth}: unrecognised shape')
+    text = (f'def csProg_{meth} : HdVerif.SRSeqIR.CollectProg :=\n  {{ root := .{root}, sr := .{sr}, src := .{src_txt[1]}, via := .{via} }}')
+    return text, span_sha(body)
+
+
+def _index(tree, cls):
+    fn = find_func(tree, f'{cls}.index')
+    body = strip_doc(fn.body)
+    txt = [_norm(s) for s in body]
+    if len(body) != 5 or not _is_guard(body[0]) or 'isinstance(val,ContentItem)' not in txt[0]:
+        raise Unsupported('index: expected type guard, message, bucket look-up, membership test, return')
+    if not txt[1].startswith('error_message='):
+        raise Unsupported('index: error message assignment expected')
+    t = body[2]
+    if not (isinstance(t, ast.Try) and len(t.body) == 1 and _re.fullmatch(r'(\w+)=self\._lut\[(\w+)\.name\]', _norm(t.body[0]))
+            and len(t.handlers) == 1 and _norm(t.handlers[0].type) == 'KeyError'
+            and any(isinstance(x, ast.Raise) and 'ValueError' in _norm(x) for x in t.handlers[0].body)):
+        raise Unsupported('index: bucket look-up changed')
+    m = _re.fullmatch(r'(\w+)=self\._lut\[(\w+)\.name\]', _norm(t.body[0]))
+    bucket, keyvar = m.group(1), m.group(2)
+    t2 = body[3]
+    if not (isinstance(t2, ast.Try) and len(t2.body) == 1 and len(t2.handlers) == 1 and _norm(t2.handlers[0].type) == 'ValueError'
+            and any(isinstance(x, ast.Raise) and 'ValueError' in _norm(x) for x in t2.handlers[0].body)):
+        raise Unsupported('index: membership test changed')
+    mem = _norm(t2.body[0])
+    bound = None
+    if mem == f'{bucket}.index(val)':
+        pass
+    elif _re.fullmatch(rf'(\w+)={bucket}\.index\(val\)', mem):
+        bound = _re.fullmatch(rf'(\w+)={bucket}\.index\(val\)', mem).group(1)
+    else:
+        raise Unsupported('index: membership test is not <bucket>.index(val)')
+    ret = txt[4]
+    if ret == 'returnsuper().index(val)':
+        result = 'listIndex'
+    elif bound is not None and ret == f'return{bound}':
+        result = 'bucketIndex'
+    else:
+        raise Unsupported('index: unrecognised return ' + ret)
+    text = ('def csProg_index : HdVerif.SRSeqIR.IndexProg :=\n'
+            f'  {{ bucketKeyIsArgName := {"true" if keyvar == "val" else "false"}, membershipInBucket := true, result := .{result} }}')
+    return text, span_sha(body)
+
+
+def build_T14p(tree):
+    cls = 'ContentSequence'
+    out, shas = [], []
+    cnode = find_func(tree, cls)
+    setitems = [n for n in cnode.body if isinstance(n, ast.FunctionDef) and n.name == '__setitem__']
+    for meth in ('__init__', 'append', 'extend', '__iadd__', 'insert', '__setitem__', '__delitem__'):
+        stmts, sha = _mutator(tree, cls, meth, setitems[-1] if meth == '__setitem__' and setitems else None)
+        out.append(_prog('csProg_' + meth.strip('_'), stmts))
+        shas.append(sha)
+    for meth in ('find', 'get_nodes'):
+        text, sha = _collect(tree, cls, meth)
+        out.append(text)
+        shas.append(sha)
+    text, sha = _index(tree, cls)
+    out.append(text)
+    shas.append(sha)
+    fn = find_func(tree, f'{cls}.__contains__')
+    body = strip_doc(fn.body)
+    ok = [_norm(s) for s in body] == ['try:self.index(val)exceptValueError:returnFalse', 'returnTrue']
+    out.append('/-- `__contains__` is `index` with ValueError turned into False -/\n'
+               f'def csContainsViaIndex : Bool := {"true" if ok else "false"}')
+    shas.append(span_sha(body))
+    return '\n\n'.join(out), hashlib.sha256(''.join(shas).encode()).hexdigest()
+
+
+TARGETS['T14p'] = {'file': 'sr/value_types.py', 'build': build_T14p, 'imports': ['HdVerif.Model.SRSeqIR']}
